@@ -13,33 +13,33 @@ namespace HidVerif.Core
 open HidVerif HidVerif.PSys HidVerif.Sphinx HidVerif.Gen
 
 section
-variable {p : Prog} {ck : Bool} {B : Nat}
+variable {p : Prog} {ck : Bool} {B : Nat} {dA : Nat}
 
 /-- `get_expr_value(r, e)` -/
 theorem gV_ok (lib : Placed p B) (Γ : Gam) (env : Env) (F D : Nat) (e : E) (pc o r : Nat) (m : Mem)
-    (hpl : PlacedAt p pc (gV (cxOf p ck B) Γ pc o r e).1)
-    (hB : pc + (gV (cxOf p ck B) Γ pc o r e).1.length ≤ B)
+    (hpl : PlacedAt p pc (gV (cxOf p ck B dA) Γ pc o r e).1)
+    (hB : pc + (gV (cxOf p ck B dA) Γ pc o r e).1.length ≤ B)
     (hr : r = 2 * p.w ∨ r = 3 * p.w) (fr : Fr p m F D) (hvars : VarsOK p.w Γ env m F o)
     (hb : boundE (Γ.map Prod.fst) e = true) (hpk : pkE p.w o e false ≤ D) (ho : p.w ≤ o) :
     (∀ v, evalE (256 ^ p.w) (8 * p.w) env e = some v →
-      ∃ m', Reach (sphinx p) ⟨pc, m⟩ [] ⟨pc + (gV (cxOf p ck B) Γ pc o r e).1.length, m'⟩ ∧
-        Keep p.w m m' (F - o) ∧ IsArg p.w (gV (cxOf p ck B) Γ pc o r e).2 ∧
-        valOf p.w m' F (gV (cxOf p ck B) Γ pc o r e).2 = v) ∧
+      ∃ m', Reach (sphinx p) ⟨pc, m⟩ [] ⟨pc + (gV (cxOf p ck B dA) Γ pc o r e).1.length, m'⟩ ∧
+        Keep p.w m m' (F - o) ∧ IsArg p.w (gV (cxOf p ck B dA) Γ pc o r e).2 ∧
+        valOf p.w m' F (gV (cxOf p ck B dA) Γ pc o r e).2 = v) ∧
     (evalE (256 ^ p.w) (8 * p.w) env e = none → ck = true →
       ∃ m', Reach (sphinx p) ⟨pc, m⟩ [] ⟨B + off_division_by_zero, m'⟩) := by
   have hw := lib.hw
   have hroom := fr.room; have htop := fr.top
   have hoD : o ≤ D := by have := pkE_ge p.w e o false; omega
-  rcases hce : cE (cxOf p ck B) Γ pc o r e false with ⟨c, v0, p0⟩
-  rcases hg : getOp (cxOf p ck B) r v0 with ⟨c', v'⟩
-  have hcode : gV (cxOf p ck B) Γ pc o r e = (c ++ c', v') := by simp only [gV, hce, hg]
+  rcases hce : cE (cxOf p ck B dA) Γ pc o r e false with ⟨c, v0, p0⟩
+  rcases hg : getOp (cxOf p ck B dA) r v0 with ⟨c', v'⟩
+  have hcode : gV (cxOf p ck B dA) Γ pc o r e = (c ++ c', v') := by simp only [gV, hce, hg]
   rw [hcode] at hpl hB ⊢
   simp only at hpl hB ⊢
   obtain ⟨hpl1, hpl2⟩ := hpl.append
   have hlen : (c ++ c').length = c.length + c'.length := by simp
-  have ih := cE_ok (ck := ck) lib Γ env F D e pc o r false m (by rw [hce]; exact hpl1)
+  have ih := cE_ok (ck := ck) (dA := dA) lib Γ env F D e pc o r false m (by rw [hce]; exact hpl1)
     (by rw [hce]; show pc + c.length ≤ B; omega) hr fr hvars hb hpk ho
-  have hloc := cE_loc (cxOf p ck B) Γ env m F D e pc o r false hvars hb hpk ho
+  have hloc := cE_loc (cxOf p ck B dA) Γ env m F D e pc o r false hvars hb hpk ho
   rw [hce] at ih hloc
   simp only at ih hloc
   obtain ⟨hp0, hloc0, _⟩ := hloc
@@ -49,7 +49,7 @@ theorem gV_ok (lib : Placed p B) (Γ : Gam) (env : Env) (F D : Nat) (e : E) (pc 
   refine ⟨fun v hv => ?_, fun hn hck => ih.2 hn hck⟩
   obtain ⟨m1, r1, k1, hv1, _⟩ := ih.1 v hv
   have fr1 := fr.keep k1
-  have hgo := getOp_ok (ck := ck) (B := B) (pc := pc + c.length) hw fr1 r v0 (by omega)
+  have hgo := getOp_ok (ck := ck) (dA := dA) (B := B) (pc := pc + c.length) hw fr1 r v0 (by omega)
     (hloc0.gettable (by omega)) (by rw [hg]; exact hpl2)
   rw [hg] at hgo
   obtain ⟨m2, r2, k2, hv2, _, harg⟩ := hgo
@@ -60,12 +60,12 @@ theorem gV_ok (lib : Placed p B) (Γ : Gam) (env : Env) (F D : Nat) (e : E) (pc 
 
 /-- `push_expr(r1, e)`: the value ends up in the slot at offset `o + w` -/
 theorem pushE_ok (lib : Placed p B) (Γ : Gam) (env : Env) (F D : Nat) (e : E) (pc o : Nat) (m : Mem)
-    (hpl : PlacedAt p pc (pushE (cxOf p ck B) Γ pc o e))
-    (hB : pc + (pushE (cxOf p ck B) Γ pc o e).length ≤ B)
+    (hpl : PlacedAt p pc (pushE (cxOf p ck B dA) Γ pc o e))
+    (hB : pc + (pushE (cxOf p ck B dA) Γ pc o e).length ≤ B)
     (fr : Fr p m F D) (hvars : VarsOK p.w Γ env m F o)
     (hb : boundE (Γ.map Prod.fst) e = true) (hpk : pkPush p.w o e ≤ D) (ho : p.w ≤ o) :
     (∀ v, evalE (256 ^ p.w) (8 * p.w) env e = some v →
-      ∃ m', Reach (sphinx p) ⟨pc, m⟩ [] ⟨pc + (pushE (cxOf p ck B) Γ pc o e).length, m'⟩ ∧
+      ∃ m', Reach (sphinx p) ⟨pc, m⟩ [] ⟨pc + (pushE (cxOf p ck B dA) Γ pc o e).length, m'⟩ ∧
         Keep p.w m m' (F - o) ∧ m'.readLE (F - (o + p.w)) p.w = v) ∧
     (evalE (256 ^ p.w) (8 * p.w) env e = none → ck = true →
       ∃ m', Reach (sphinx p) ⟨pc, m⟩ [] ⟨B + off_division_by_zero, m'⟩) := by
@@ -73,9 +73,9 @@ theorem pushE_ok (lib : Placed p B) (Γ : Gam) (env : Env) (F D : Nat) (e : E) (
   have hroom := fr.room; have htop := fr.top
   have hpk1 : pkE p.w o e true ≤ D := by unfold pkPush at hpk; omega
   have hoD : o + p.w ≤ D := by unfold pkPush at hpk; omega
-  rcases hce : cE (cxOf p ck B) Γ pc o (cxOf p ck B).r1 e true with ⟨c, v0, p0⟩
-  have ih := cE_ok (ck := ck) lib Γ env F D e pc o (cxOf p ck B).r1 true m
-  have hloc := cE_loc (cxOf p ck B) Γ env m F D e pc o (cxOf p ck B).r1 true hvars hb hpk1 ho
+  rcases hce : cE (cxOf p ck B dA) Γ pc o (cxOf p ck B dA).r1 e true with ⟨c, v0, p0⟩
+  have ih := cE_ok (ck := ck) (dA := dA) lib Γ env F D e pc o (cxOf p ck B dA).r1 true m
+  have hloc := cE_loc (cxOf p ck B dA) Γ env m F D e pc o (cxOf p ck B dA).r1 true hvars hb hpk1 ho
   rw [hce] at ih hloc
   simp only at ih hloc
   obtain ⟨hp0, hloc0, _⟩ := hloc
@@ -84,11 +84,11 @@ theorem pushE_ok (lib : Placed p B) (Γ : Gam) (env : Env) (F D : Nat) (e : E) (
     -- compound: `cE` already pushed the result
     simp only [hs, Bool.not_false, Bool.and_true] at hp0
     subst hp0
-    have hcode : pushE (cxOf p ck B) Γ pc o e = c := by simp only [pushE, hce]; simp
+    have hcode : pushE (cxOf p ck B dA) Γ pc o e = c := by simp only [pushE, hce]; simp
     rw [hcode] at hpl hB ⊢
     have ih' := ih hpl hB (Or.inr rfl) fr hvars hb hpk1 ho
     have hv0 : v0 = .slot (o + p.w) := by
-      have := cE_shape (cxOf p ck B) Γ e pc o (cxOf p ck B).r1 true
+      have := cE_shape (cxOf p ck B dA) Γ e pc o (cxOf p ck B dA).r1 true
       rw [hce] at this
       cases e <;> simp [isSafe] at hs <;> simp [shape] at this <;> exact this
     subst hv0
@@ -99,29 +99,29 @@ theorem pushE_ok (lib : Placed p B) (Γ : Gam) (env : Env) (F D : Nat) (e : E) (
     simp only [hs, Bool.not_true, Bool.and_false] at hp0
     subst hp0
     simp only [Bool.false_eq_true, if_false] at hloc0
-    rcases hg : getOp (cxOf p ck B) (cxOf p ck B).r1 v0 with ⟨c', v'⟩
-    have hcode : pushE (cxOf p ck B) Γ pc o e = c ++ c' ++ [stSlot (cxOf p ck B) (o + p.w) (v'.arg (cxOf p ck B))] := by
+    rcases hg : getOp (cxOf p ck B dA) (cxOf p ck B dA).r1 v0 with ⟨c', v'⟩
+    have hcode : pushE (cxOf p ck B dA) Γ pc o e = c ++ c' ++ [stSlot (cxOf p ck B dA) (o + p.w) (v'.arg (cxOf p ck B dA))] := by
       simp only [pushE, hce, hg]; simp
     rw [hcode] at hpl hB ⊢
     obtain ⟨hpl12, hpl3⟩ := hpl.append
     obtain ⟨hpl1, hpl2⟩ := hpl12.append
-    have hlen : (c ++ c' ++ [stSlot (cxOf p ck B) (o + p.w) (v'.arg (cxOf p ck B))]).length = c.length + c'.length + 1 := by
+    have hlen : (c ++ c' ++ [stSlot (cxOf p ck B dA) (o + p.w) (v'.arg (cxOf p ck B dA))]).length = c.length + c'.length + 1 := by
       simp only [List.length_append, List.length_cons, List.length_nil]
     have hlen2 : (c ++ c').length = c.length + c'.length := by simp
     have ih' := ih hpl1 (by omega) (Or.inr rfl) fr hvars hb hpk1 ho
     refine ⟨fun v hv => ?_, fun hn hck => ih'.2 hn hck⟩
     obtain ⟨m1, r1, k1, hv1, _⟩ := ih'.1 v hv
     have fr1 := fr.keep k1
-    have hgo := getOp_ok (ck := ck) (B := B) (pc := pc + c.length) hw fr1 (cxOf p ck B).r1 v0
+    have hgo := getOp_ok (ck := ck) (dA := dA) (B := B) (pc := pc + c.length) hw fr1 (cxOf p ck B dA).r1 v0
       (by show 2 * p.w ≤ 3 * p.w ∧ 3 * p.w + p.w ≤ 5 * p.w; omega)
       (hloc0.gettable (by show 3 * p.w + p.w ≤ 5 * p.w; omega)) (by rw [hg]; exact hpl2)
     rw [hg] at hgo
     obtain ⟨m2, r2, k2, hv2, _, harg⟩ := hgo
     simp only at r2 hv2 harg
     have fr2 := fr1.keep k2
-    have ev := ev_arg_any (ck := ck) (B := B) hw fr2 (pc + (c ++ c').length) v' harg
+    have ev := ev_arg_any (ck := ck) (dA := dA) (B := B) hw fr2 (pc + (c ++ c').length) v' harg
     rw [hv2, hv1] at ev
-    have st := st_reach (ck := ck) (B := B) hw fr2 (o + p.w) _ v hpl3 ev (by omega) hoD
+    have st := st_reach (ck := ck) (dA := dA) (B := B) hw fr2 (o + p.w) _ v hpl3 ev (by omega) hoD
     have hvM : v < 256 ^ p.w := by
       rw [← hv1]; cases v0 with
       | imm i => exact wrapI_lt (by have := pow_ge2 p.w hw; omega) i
@@ -145,13 +145,13 @@ theorem wiExcess_ge (w : Nat) (hw : 1 ≤ w) (k : Nat) (hk : k ≤ (8 * w - 1) *
 /-- the call `write(e)` with an `int` argument: pushes the return address and the argument,
 moves the frame pointer, runs `write_int` (`write_int_spec`) and restores the frame pointer -/
 theorem cWrite_ok (lib : Placed p B) (Γ : Gam) (env : Env) (F D : Nat) (e : E) (pc o : Nat) (m : Mem)
-    (hpl : PlacedAt p pc (cWrite (cxOf p ck B) Γ pc o e))
-    (hB : pc + (cWrite (cxOf p ck B) Γ pc o e).length ≤ B)
+    (hpl : PlacedAt p pc (cWrite (cxOf p ck B dA) Γ pc o e))
+    (hB : pc + (cWrite (cxOf p ck B dA) Γ pc o e).length ≤ B)
     (fr : Fr p m F D) (hvars : VarsOK p.w Γ env m F o)
     (hb : boundE (Γ.map Prod.fst) e = true) (hpk : pkWrite p.w o e ≤ D) (ho : p.w ≤ o) :
     (∀ v, evalE (256 ^ p.w) (8 * p.w) env e = some v →
       ∃ m', Reach (sphinx p) ⟨pc, m⟩ (outs (decimalW (256 ^ p.w) v))
-          ⟨pc + (cWrite (cxOf p ck B) Γ pc o e).length, m'⟩ ∧ Keep p.w m m' (F - o)) ∧
+          ⟨pc + (cWrite (cxOf p ck B dA) Γ pc o e).length, m'⟩ ∧ Keep p.w m m' (F - o)) ∧
     (evalE (256 ^ p.w) (8 * p.w) env e = none → ck = true →
       ∃ m', Reach (sphinx p) ⟨pc, m⟩ [] ⟨B + off_division_by_zero, m'⟩) := by
   have hw := lib.hw
@@ -161,15 +161,15 @@ theorem cWrite_ok (lib : Placed p B) (Γ : Gam) (env : Env) (F D : Nat) (e : E) 
   have hroom := fr.room; have htop := fr.top; have hFM := fr.lt
   have hpkP : pkPush p.w (o + p.w) e ≤ D := by unfold pkWrite at hpk; omega
   have hpkX : o + 2 * p.w + wiExcess p.w ≤ D := by unfold pkWrite at hpk; omega
-  generalize hpush : pushE (cxOf p ck B) Γ (pc + 1) (o + p.w) e = push at *
-  have hcode : cWrite (cxOf p ck B) Γ pc o e =
-      [stSlot (cxOf p ck B) (o + p.w) (.imm (pc + 1 + push.length + 3))] ++ push ++
-        [.alu .add p.w (.st p.w) ((cxOf p ck B).negImm o), .j (.imm (B + off_write_int)), .halt,
+  generalize hpush : pushE (cxOf p ck B dA) Γ (pc + 1) (o + p.w) e = push at *
+  have hcode : cWrite (cxOf p ck B dA) Γ pc o e =
+      [stSlot (cxOf p ck B dA) (o + p.w) (.imm (pc + 1 + push.length + 3))] ++ push ++
+        [.alu .add p.w (.st p.w) ((cxOf p ck B dA).negImm o), .j (.imm (B + off_write_int)), .halt,
          .alu .add p.w (.st p.w) (.imm (wrapI (256 ^ p.w) o))] := by
     simp only [cWrite, hpush]; rfl
   rw [hcode] at hpl hB ⊢
-  have hlen : ([stSlot (cxOf p ck B) (o + p.w) (.imm (pc + 1 + push.length + 3))] ++ push ++
-        [Instr.alu .add p.w (.st p.w) ((cxOf p ck B).negImm o), .j (.imm (B + off_write_int)), .halt,
+  have hlen : ([stSlot (cxOf p ck B dA) (o + p.w) (.imm (pc + 1 + push.length + 3))] ++ push ++
+        [Instr.alu .add p.w (.st p.w) ((cxOf p ck B dA).negImm o), .j (.imm (B + off_write_int)), .halt,
          .alu .add p.w (.st p.w) (.imm (wrapI (256 ^ p.w) o))]).length = 1 + push.length + 4 := by
     simp only [List.length_append, List.length_cons, List.length_nil]
   rw [hlen] at hB ⊢
@@ -178,7 +178,7 @@ theorem cWrite_ok (lib : Placed p B) (Γ : Gam) (env : Env) (F D : Nat) (e : E) 
   simp only [List.length_append, List.length_cons, List.length_nil, Nat.zero_add] at hpl2 hpl3
   -- 0: the return address
   have hend : pc + 1 + push.length + 3 < 256 ^ p.w := by simp [stdlibLength] at hBM; omega
-  have s0 := st_reach (ck := ck) (B := B) hw fr (o + p.w) (.imm (pc + 1 + push.length + 3)) (pc + 1 + push.length + 3) hpl1
+  have s0 := st_reach (ck := ck) (dA := dA) (B := B) hw fr (o + p.w) (.imm (pc + 1 + push.length + 3)) (pc + 1 + push.length + 3) hpl1
     (by rw [ev_imm]; congr 1; exact Nat.mod_eq_of_lt (by unfold Prog.M; exact hend)) (by omega) (by omega)
   have k0 : Keep p.w m (m.writeLE (F - (o + p.w)) p.w (pc + 1 + push.length + 3)) (F - o) :=
     Keep.write _ _ _ _ _ _ (by omega) (by omega)
@@ -187,7 +187,7 @@ theorem cWrite_ok (lib : Placed p B) (Γ : Gam) (env : Env) (F D : Nat) (e : E) 
   have hra1 : m1.readLE (F - (o + p.w)) p.w = pc + 1 + push.length + 3 := by
     rw [← hm1, Mem.readLE_writeLE_same _ _ _ _ (by omega)]; exact Nat.mod_eq_of_lt hend
   -- the argument
-  have hp := pushE_ok (ck := ck) lib Γ env F D e (pc + 1) (o + p.w) m1 (by rw [hpush]; exact hpl2)
+  have hp := pushE_ok (ck := ck) (dA := dA) lib Γ env F D e (pc + 1) (o + p.w) m1 (by rw [hpush]; exact hpl2)
     (by rw [hpush]; omega) fr1 (hvars.keep k0 (Nat.le_refl _) (by omega)) hb hpkP (by omega)
   rw [hpush] at hp
   refine ⟨fun v hv => ?_, fun hn hck => ?_⟩
@@ -269,41 +269,112 @@ def Disj (w : Nat) (Γ : Gam) : Prop :=
   ∀ x y, (Γ.map Prod.fst).contains x = true → (Γ.map Prod.fst).contains y = true → x ≠ y →
     look Γ x + w ≤ look Γ y ∨ look Γ y + w ≤ look Γ x
 
+/-- the three situations in which a statement list is compiled and run -/
+inductive Md
+  /-- function bodies, bodies of `try/undo`, handlers: the words `try_fp` and `defeat` are not touched -/
+  | plain
+  /-- bodies of `try/stop`: `defeat` (at address `a`) holds the handler address `v`, `try_fp` the frame pointer -/
+  | stop (a v : Nat)
+  /-- the level of the you function: `try/stop` blocks rewrite `try_fp` and `defeat` -/
+  | you
+
+/-- the lowest address at and above which a statement list leaves the memory alone -/
+def Md.kb : Md → (F w : Nat) → Nat
+  | .you, F, w => F + 2 * w
+  | _, F, _ => F
+
+theorem Md.kb_ge (md : Md) (F w : Nat) : F ≤ md.kb F w := by cases md <;> simp [Md.kb]
+
+/-- inside a `try/stop` body the two words behind the entry frame hold the handler and the frame pointer -/
+def DReg (p : Prog) (md : Md) (m : Mem) (F : Nat) : Prop :=
+  ∀ a v, md = .stop a v → a = F + p.w ∧ F + 2 * p.w ≤ m.size ∧ F + 2 * p.w < 256 ^ p.w ∧
+    m.readLE a p.w = v ∧ m.readLE F p.w = F ∧ v < 256 ^ p.w
+
+theorem DReg.keep {md : Md} {m m' : Mem} {F a : Nat} (h : DReg p md m F) (k : Keep p.w m m' a) (ha : a ≤ F) :
+    DReg p md m' F := by
+  intro x v e
+  obtain ⟨h1, h2, h3, h4, h5, h6⟩ := h x v e
+  exact ⟨h1, by rw [k.size]; exact h2, h3, by rw [k.read _ _ (by omega)]; exact h4, by rw [k.read _ _ (by omega)]; exact h5, h6⟩
+
+variable {md : Md}
+
 /-- the machine state matches the source environment -/
-structure SInv (p : Prog) (Γ : Gam) (env : Env) (m : Mem) (F D o ra : Nat) : Prop where
+structure SInv (p : Prog) (md : Md) (Γ : Gam) (env : Env) (m : Mem) (F D o ra : Nat) : Prop where
   fr : Fr p m F D
   vars : VarsOK p.w Γ env m F o
   ra : m.readLE (F - p.w) p.w = ra
+  dreg : DReg p md m F
 
-theorem SInv.keep {Γ : Gam} {env : Env} {m m' : Mem} {F D o ra : Nat} (h : SInv p Γ env m F D o ra)
-    (k : Keep p.w m m' (F - o)) (ho : p.w ≤ o) : SInv p Γ env m' F D o ra :=
-  ⟨h.fr.keep k, h.vars.keep k (Nat.le_refl _) (Nat.le_refl _), by rw [k.read _ _ (by omega)]; exact h.ra⟩
+theorem SInv.keep {Γ : Gam} {env : Env} {m m' : Mem} {F D o ra : Nat} (h : SInv p md Γ env m F D o ra)
+    (k : Keep p.w m m' (F - o)) (ho : p.w ≤ o) : SInv p md Γ env m' F D o ra :=
+  ⟨h.fr.keep k, h.vars.keep k (Nat.le_refl _) (Nat.le_refl _), by rw [k.read _ _ (by omega)]; exact h.ra,
+   h.dreg.keep k (by omega)⟩
+
+/-- the same state seen from a situation that asks nothing of `try_fp` and `defeat` -/
+theorem SInv.toMd {md' : Md} {Γ : Gam} {env : Env} {m : Mem} {F D o ra : Nat} (h : SInv p md Γ env m F D o ra)
+    (hm : ∀ a v, md' ≠ .stop a v) : SInv p md' Γ env m F D o ra :=
+  ⟨h.fr, h.vars, h.ra, fun a v e => absurd e (hm a v)⟩
+
+/-- a memory with the same frame (below `F`), the same `fp` and `ap`, seen from any situation whose
+demands on the words behind the frame it meets -/
+theorem SInv.same {md' : Md} {Γ : Gam} {env : Env} {m m' : Mem} {F D o ra : Nat} (h : SInv p md Γ env m F D o ra)
+    (ho : p.w ≤ o) (hoD : o ≤ D)
+    (hsize : m'.size = m.size) (hfp : m'.readLE p.w p.w = F) (hap : m'.readLE 0 p.w = 5 * p.w)
+    (hlo : ∀ x, 5 * p.w ≤ x → x < F → m'.rd x = m.rd x) (hd : DReg p md' m' F) : SInv p md' Γ env m' F D o ra := by
+  have hroom := h.fr.room
+  refine ⟨⟨hfp, hap, by rw [hsize]; exact h.fr.top, h.fr.lt, h.fr.room⟩, ?_, ?_, hd⟩
+  · intro x hx
+    obtain ⟨h1, h2, h3⟩ := h.vars x hx
+    refine ⟨h1, h2, ?_⟩
+    rw [← h3]; exact Mem.readLE_congr _ _ _ _ (fun y hy1 hy2 => hlo y (by omega) (by omega))
+  · rw [← h.ra]; exact Mem.readLE_congr _ _ _ _ (fun y hy1 hy2 => hlo y (by omega) (by omega))
 
 /-- where control is and what holds after a statement list that started in memory `m0`: in every
-case the memory at and above the frame pointer, `fp` and `ap` are what they were (`Keep … F`) -/
-def Post (p : Prog) (B ra : Nat) (lp : Nat × Nat) (Γ : Gam) (env' : Env) (F D o pcEnd : Nat) (m0 : Mem) (res : Res) (st : St) : Prop :=
+case the memory at and above the frame pointer, `fp` and `ap` are what they were (`Keep … F`; at the
+level of the you function the words `try_fp` and `defeat` behind the frame are excepted).  A defeat
+inside a `try/stop` body leaves the machine at the handler. -/
+def Post (p : Prog) (B ra : Nat) (lp : Jt) (md : Md) (Γ : Gam) (env' : Env) (F D o pcEnd : Nat) (m0 : Mem) (res : Res) (st : St) : Prop :=
   match res with
-  | .norm => st.pc = pcEnd ∧ SInv p Γ env' st.mem F D o ra ∧ Keep p.w m0 st.mem F
-  | .returned => st.pc = ra ∧ Keep p.w m0 st.mem F
-  | .retv v => st.pc = ra ∧ Keep p.w m0 st.mem F ∧ st.mem.readLE (F - p.w) p.w = v
+  | .norm => st.pc = pcEnd ∧ SInv p md Γ env' st.mem F D o ra ∧ Keep p.w m0 st.mem (md.kb F p.w)
+  | .returned => st.pc = ra ∧ Keep p.w m0 st.mem (md.kb F p.w)
+  | .retv v => st.pc = ra ∧ Keep p.w m0 st.mem (md.kb F p.w) ∧ st.mem.readLE (F - p.w) p.w = v
   | .div0 => st.pc = B + off_division_by_zero
   | .ovf => st.pc = B + off_stack_overflow
-  | .defeat => False
-  | .brk => st.pc = lp.2 ∧ SInv p Γ env' st.mem F D o ra ∧ Keep p.w m0 st.mem F
-  | .cnt => st.pc = lp.1 ∧ SInv p Γ env' st.mem F D o ra ∧ Keep p.w m0 st.mem F
+  | .defeat => ∃ a v, md = .stop a v ∧ st.pc = v ∧ SInv p md Γ env' st.mem F D o ra ∧ Keep p.w m0 st.mem (md.kb F p.w)
+  | .brk => st.pc = lp.brk ∧ SInv p md Γ env' st.mem F D o ra ∧ Keep p.w m0 st.mem (md.kb F p.w)
+  | .cnt => st.pc = lp.cont ∧ SInv p md Γ env' st.mem F D o ra ∧ Keep p.w m0 st.mem (md.kb F p.w)
 
 /-- the same facts relative to an earlier memory -/
-theorem Post.rebase {B ra : Nat} {lp : Nat × Nat} {Γ : Gam} {env' : Env} {F D o e : Nat} {m m1 : Mem} {res : Res} {st : St}
-    (k : Keep p.w m m1 F) (h : Post p B ra lp Γ env' F D o e m1 res st) : Post p B ra lp Γ env' F D o e m res st := by
+theorem Post.rebase {B ra : Nat} {lp : Jt} {Γ : Gam} {env' : Env} {F D o e : Nat} {m m1 : Mem} {res : Res} {st : St}
+    (k : Keep p.w m m1 (md.kb F p.w)) (h : Post p B ra lp md Γ env' F D o e m1 res st) : Post p B ra lp md Γ env' F D o e m res st := by
   cases res with
   | norm => exact ⟨h.1, h.2.1, k.trans' h.2.2⟩
   | returned => exact ⟨h.1, k.trans' h.2⟩
   | retv v => exact ⟨h.1, k.trans' h.2.1, h.2.2⟩
   | div0 => exact h
   | ovf => exact h
-  | defeat => exact h
+  | defeat => obtain ⟨a, v, h1, h2, h3, h4⟩ := h; exact ⟨a, v, h1, h2, h3, k.trans' h4⟩
   | brk => exact ⟨h.1, h.2.1, k.trans' h.2.2⟩
   | cnt => exact ⟨h.1, h.2.1, k.trans' h.2.2⟩
+
+/-- what holds of a list that leaves `try_fp` and `defeat` alone holds at the level of the you function -/
+theorem Post.toYou {B ra : Nat} {lp : Jt} {Γ : Gam} {env' : Env} {F D o e : Nat} {m : Mem} {res : Res} {st : St}
+    (h : Post p B ra lp .plain Γ env' F D o e m res st) : Post p B ra lp .you Γ env' F D o e m res st := by
+  have hm : ∀ a v, Md.you ≠ .stop a v := by intro a v h; cases h
+  have hk : ∀ {m m' : Mem}, Keep p.w m m' (Md.plain.kb F p.w) → Keep p.w m m' (Md.you.kb F p.w) :=
+    fun k => k.mono (by simp [Md.kb])
+  cases res with
+  | norm => exact ⟨h.1, h.2.1.toMd hm, hk h.2.2⟩
+  | returned => exact ⟨h.1, hk h.2⟩
+  | retv v => exact ⟨h.1, hk h.2.1, h.2.2⟩
+  | div0 => exact h
+  | ovf => exact h
+  | defeat => obtain ⟨a, v, h1, _⟩ := h; cases h1
+  | brk => exact ⟨h.1, h.2.1.toMd hm, hk h.2.2⟩
+  | cnt => exact ⟨h.1, h.2.1.toMd hm, hk h.2.2⟩
+
+/-- a step that respects the frame respects it in every situation -/
+theorem Keep.kb {m m' : Mem} {F : Nat} (k : Keep p.w m m' F) : Keep p.w m m' (md.kb F p.w) := k.mono (md.kb_ge _ _)
 
 theorem look_cons_same (Γ : Gam) (x : String) (a : Nat) : look ((x, a) :: Γ) x = a := by
   simp [look, List.lookup]
@@ -322,11 +393,11 @@ theorem contains_cons_fst (Γ : Gam) (x y : String) (a : Nat) :
   simp [List.contains_cons]
 
 /-- entering the scope of a new variable whose value was just pushed -/
-theorem decl_inv {Γ : Gam} {env : Env} {m m1 : Mem} {F D o ra : Nat} (h : SInv p Γ env m F D o ra)
+theorem decl_inv {Γ : Gam} {env : Env} {m m1 : Mem} {F D o ra : Nat} (h : SInv p md Γ env m F D o ra)
     (hd : Disj p.w Γ) (x : String) (v : Nat) (k : Keep p.w m m1 (F - o))
     (hval : m1.readLE (F - (o + p.w)) p.w = v) (hx : (Γ.map Prod.fst).contains x = false) (ho : p.w ≤ o) :
-    SInv p ((x, o + p.w) :: Γ) (upd env x v) m1 F D (o + p.w) ra ∧ Disj p.w ((x, o + p.w) :: Γ) := by
-  refine ⟨⟨h.fr.keep k, ?_, by rw [k.read _ _ (by omega)]; exact h.ra⟩, ?_⟩
+    SInv p md ((x, o + p.w) :: Γ) (upd env x v) m1 F D (o + p.w) ra ∧ Disj p.w ((x, o + p.w) :: Γ) := by
+  refine ⟨⟨h.fr.keep k, ?_, by rw [k.read _ _ (by omega)]; exact h.ra, h.dreg.keep k (by omega)⟩, ?_⟩
   · intro y hy
     rw [contains_cons_fst] at hy
     by_cases hyx : y = x
@@ -363,10 +434,10 @@ theorem decl_inv {Γ : Gam} {env : Env} {m m1 : Mem} {F D o ra : Nat} (h : SInv 
         exact hd y z hy' hz' hyz
 
 /-- leaving the scope again -/
-theorem decl_back {Γ : Gam} {env env' : Env} {m m' : Mem} {F D o ra : Nat} (h0 : SInv p Γ env m F D o ra)
-    (x : String) (h : SInv p ((x, o + p.w) :: Γ) env' m' F D (o + p.w) ra)
-    (hx : (Γ.map Prod.fst).contains x = false) : SInv p Γ env' m' F D o ra := by
-  refine ⟨h.fr, ?_, h.ra⟩
+theorem decl_back {Γ : Gam} {env env' : Env} {m m' : Mem} {F D o ra : Nat} (h0 : SInv p md Γ env m F D o ra)
+    (x : String) (h : SInv p md ((x, o + p.w) :: Γ) env' m' F D (o + p.w) ra)
+    (hx : (Γ.map Prod.fst).contains x = false) : SInv p md Γ env' m' F D o ra := by
+  refine ⟨h.fr, ?_, h.ra, h.dreg⟩
   intro y hy
   have hyx : y ≠ x := by intro e; subst e; rw [hx] at hy; exact absurd hy (by simp)
   have := h.vars y (by rw [contains_cons_fst, hy]; simp)
@@ -374,15 +445,15 @@ theorem decl_back {Γ : Gam} {env env' : Env} {m m' : Mem} {F D o ra : Nat} (h0 
   exact ⟨this.1, (h0.vars y hy).2.1, this.2.2⟩
 
 /-- assignment to a variable in scope -/
-theorem assign_inv (hw : 2 ≤ p.w) {Γ : Gam} {env : Env} {m : Mem} {F D o ra : Nat} (h : SInv p Γ env m F D o ra)
+theorem assign_inv (hw : 2 ≤ p.w) {Γ : Gam} {env : Env} {m : Mem} {F D o ra : Nat} (h : SInv p md Γ env m F D o ra)
     (hd : Disj p.w Γ) (x : String) (v : Nat) (hv : v < 256 ^ p.w) (hx : (Γ.map Prod.fst).contains x = true)
     (hoD : o ≤ D) :
-    SInv p Γ (upd env x v) (m.writeLE (F - look Γ x) p.w v) F D o ra := by
+    SInv p md Γ (upd env x v) (m.writeLE (F - look Γ x) p.w v) F D o ra := by
   obtain ⟨hx1, hx2, _⟩ := h.vars x hx
   have hroom := h.fr.room; have htop := h.fr.top
   have k : Keep p.w m (m.writeLE (F - look Γ x) p.w v) (F - look Γ x + p.w) :=
     Keep.write _ _ _ _ _ _ (by omega) (Nat.le_refl _)
-  refine ⟨h.fr.keep k, ?_, by rw [Mem.readLE_writeLE_disj _ _ _ _ _ _ (by omega)]; exact h.ra⟩
+  refine ⟨h.fr.keep k, ?_, by rw [Mem.readLE_writeLE_disj _ _ _ _ _ _ (by omega)]; exact h.ra, h.dreg.keep k (by omega)⟩
   intro y hy
   obtain ⟨h1, h2, h3⟩ := h.vars y hy
   by_cases hyx : y = x
@@ -411,6 +482,7 @@ theorem pkS_ge (w : Nat) (s : S) : ∀ o, o ≤ pkS w o s := by
   | defeat k ih => intro o; simpa [pkS] using ih o
   | defeatIf c k ih => intro o; have := ih o; simp only [pkS]; omega
   | tryUndo b h k _ _ ih => intro o; have := ih o; simp only [pkS]; omega
+  | tryStop b h k _ _ ih => intro o; have := ih o; simp only [pkS]; omega
   | retE e => intro o; simpa [pkS] using pkE_ge w e o false
   | callS g args k ih => intro o; have := ih o; simp only [pkS]; omega
   | declCall x g args k ih => intro o; have := ih (o + w); simp only [pkS, pkCall]; omega
@@ -447,12 +519,13 @@ theorem plain_noTry (s : S) : plain s = true → noTry s = true := by
   | defeat k _ => simp [plain]
   | defeatIf c k _ => simp [plain]
   | tryUndo b h k _ _ _ => simp [plain]
+  | tryStop b h k _ _ _ => simp [plain]
   | retE e => intro; rfl
   | callS g args k ih => simpa [plain, noTry] using ih
   | declCall x g args k ih => simpa [plain, noTry] using ih
   | assignCall x g args k ih => simpa [plain, noTry] using ih
 
-theorem plain_youLevel (s : S) : plain s = true → youLevel s = true := by
+theorem plain_youLevel (st : Bool) (s : S) : plain s = true → youLevel st s = true := by
   induction s with
   | nil => intro; rfl
   | ret => intro; rfl
@@ -471,6 +544,7 @@ theorem plain_youLevel (s : S) : plain s = true → youLevel s = true := by
   | defeat k _ => simp [plain]
   | defeatIf c k _ => simp [plain]
   | tryUndo b h k _ _ _ => simp [plain]
+  | tryStop b h k _ _ _ => simp [plain]
   | retE e => intro; rfl
   | callS g args k ih => simpa [plain, youLevel] using ih
   | declCall x g args k ih => simpa [plain, youLevel] using ih
@@ -498,8 +572,8 @@ theorem callWith_fault {M n : Nat} {fns : List FDecl} {w : Nat} {ex : (room o : 
           · exact Or.inr h.2.1.symm
 
 /-- at the level of the you function a defeat never escapes: every defeat call sits in a `try` -/
-theorem exec_no_defeat (M n : Nat) (fns : List FDecl) (w : Nat) : ∀ (fuel : Nat) (s : S) (room o : Nat) (env env' : Env) (tr : List Ev) (res : Res),
-    youLevel s = true → exec M n fns w fuel room o env s = some (env', tr, res) → res ≠ .defeat := by
+theorem exec_no_defeat (M n : Nat) (fns : List FDecl) (w : Nat) (st : Bool) : ∀ (fuel : Nat) (s : S) (room o : Nat) (env env' : Env) (tr : List Ev) (res : Res),
+    youLevel st s = true → exec M n fns w fuel room o env s = some (env', tr, res) → res ≠ .defeat := by
   intro fuel
   induction fuel with
   | zero => intro s room o env env' tr res _ h; simp [exec] at h
@@ -677,7 +751,51 @@ theorem exec_no_defeat (M n : Nat) (fns : List FDecl) (w : Nat) : ∀ (fuel : Na
           | some rh =>
             obtain ⟨e2, t2, r2⟩ := rh
             simp only [hh, Option.bind_some] at hex
-            have h2 := ih handler _ _ _ _ _ _ (plain_youLevel _ hy.1.2) hh
+            have h2 := ih handler _ _ _ _ _ _ (plain_youLevel _ _ hy.1.2) hh
+            by_cases hn2 : r2 = .norm
+            · subst hn2
+              simp only [if_true] at hex
+              cases hk : exec M n fns w f room o e2 k with
+              | none => simp [hk] at hex
+              | some rk =>
+                obtain ⟨e3, t3, r3⟩ := rk
+                simp only [hk, Option.bind_some, Option.pure_def, Option.some.injEq, Prod.mk.injEq] at hex
+                rw [← hex.2.2]; exact ih k _ _ _ _ _ _ hy.2 hk
+            · simp only [hn2, if_false, Option.pure_def, Option.some.injEq, Prod.mk.injEq] at hex
+              rw [← hex.2.2]; exact h2
+        · simp only [hd, if_false] at hex
+          by_cases hn : r1 = .norm
+          · subst hn
+            simp only [if_true] at hex
+            cases hk : exec M n fns w f room o e1 k with
+            | none => simp [hk] at hex
+            | some rk =>
+              obtain ⟨e3, t3, r3⟩ := rk
+              simp only [hk, Option.bind_some, Option.pure_def, Option.some.injEq, Prod.mk.injEq] at hex
+              rw [← hex.2.2]; exact ih k _ _ _ _ _ _ hy.2 hk
+          · simp only [hn, if_false, Option.pure_def, Option.some.injEq, Prod.mk.injEq] at hex
+            rw [← hex.2.2]; exact hd
+
+    | tryStop body handler k =>
+      simp only [youLevel, Bool.and_eq_true] at hy
+      simp only [exec] at hex
+      cases hb : exec M n fns w f room (o + w) (upd env "%ap" (5 * w)) body with
+      | none => simp [hb] at hex
+      | some rb =>
+        obtain ⟨e1, t1, r1⟩ := rb
+        simp only [hb, Option.bind_eq_bind, Option.bind_some] at hex
+        by_cases hd : r1 = .defeat
+        · subst hd
+          simp only [if_true] at hex
+          by_cases hap : e1 "%ap" = 5 * w
+          case neg => simp [hap] at hex
+          simp only [hap, ne_eq, not_true_eq_false, if_false] at hex
+          cases hh : exec M n fns w f room o e1 handler with
+          | none => simp [hh] at hex
+          | some rh =>
+            obtain ⟨e2, t2, r2⟩ := rh
+            simp only [hh, Option.bind_some] at hex
+            have h2 := ih handler _ _ _ _ _ _ (plain_youLevel _ _ hy.1.2) hh
             by_cases hn2 : r2 = .norm
             · subst hn2
               simp only [if_true] at hex
@@ -957,6 +1075,54 @@ theorem exec_noFall (M n : Nat) (fns : List FDecl) (w : Nat) : ∀ (fuel : Nat) 
         · subst hd
           simp only [if_true] at hex
           cases hh : exec M n fns w f room o env handler with
+          | none => simp [hh] at hex
+          | some rh =>
+            obtain ⟨e2, t2, r2⟩ := rh
+            simp only [hh, Option.bind_some] at hex
+            by_cases hn2 : r2 = .norm
+            · subst hn2
+              simp only [if_true] at hex
+              cases hk : exec M n fns w f room o e2 k with
+              | none => simp [hk] at hex
+              | some rk =>
+                obtain ⟨e3, t3, r3⟩ := rk
+                simp only [hk, Option.bind_some, Option.pure_def, Option.some.injEq, Prod.mk.injEq] at hex
+                rw [← hex.2.2]
+                rcases hy with hy | hy
+                · exact absurd rfl (ih handler _ _ _ _ _ _ hy.2 hh)
+                · exact ih k _ _ _ _ _ _ hy hk
+            · simp only [hn2, if_false, Option.pure_def, Option.some.injEq, Prod.mk.injEq] at hex
+              rw [← hex.2.2]; exact hn2
+        · simp only [hd, if_false] at hex
+          by_cases hn : r1 = .norm
+          · subst hn
+            simp only [if_true] at hex
+            cases hk : exec M n fns w f room o e1 k with
+            | none => simp [hk] at hex
+            | some rk =>
+              obtain ⟨e3, t3, r3⟩ := rk
+              simp only [hk, Option.bind_some, Option.pure_def, Option.some.injEq, Prod.mk.injEq] at hex
+              rw [← hex.2.2]
+              rcases hy with hy | hy
+              · exact absurd rfl (ih body _ _ _ _ _ _ hy.1 hb)
+              · exact ih k _ _ _ _ _ _ hy hk
+          · simp only [hn, if_false, Option.pure_def, Option.some.injEq, Prod.mk.injEq] at hex
+            rw [← hex.2.2]; exact hn
+    | tryStop body handler k =>
+      simp only [noFall, Bool.or_eq_true, Bool.and_eq_true] at hy
+      simp only [exec] at hex
+      cases hb : exec M n fns w f room (o + w) (upd env "%ap" (5 * w)) body with
+      | none => simp [hb] at hex
+      | some rb =>
+        obtain ⟨e1, t1, r1⟩ := rb
+        simp only [hb, Option.bind_eq_bind, Option.bind_some] at hex
+        by_cases hd : r1 = .defeat
+        · subst hd
+          simp only [if_true] at hex
+          by_cases hap : e1 "%ap" = 5 * w
+          case neg => simp [hap] at hex
+          simp only [hap, ne_eq, not_true_eq_false, if_false] at hex
+          cases hh : exec M n fns w f room o e1 handler with
           | none => simp [hh] at hex
           | some rh =>
             obtain ⟨e2, t2, r2⟩ := rh
@@ -1330,6 +1496,57 @@ theorem exec_room_mono (M n : Nat) (fns : List FDecl) (w : Nat) : ∀ (fuel : Na
             obtain ⟨rfl, rfl, rfl⟩ := hex
             rw [ih _ _ _ _ _ _ _ _ hle hb hno]
             simp [hn, hd]
+    | tryStop body handler k =>
+      simp only [exec] at hex ⊢
+      cases hb : exec M n fns w f room (o + w) (upd env "%ap" (5 * w)) body with
+      | none => simp [hb] at hex
+      | some rb =>
+        obtain ⟨e1, t1, r1⟩ := rb
+        simp only [hb, Option.bind_eq_bind, Option.bind_some] at hex
+        by_cases hd : r1 = .defeat
+        · subst hd
+          rw [ih _ _ _ _ _ _ _ _ hle hb (by decide)]
+          simp only [if_true, Option.bind_eq_bind, Option.bind_some] at hex ⊢
+          by_cases hap : e1 "%ap" = 5 * w
+          case neg => simp [hap] at hex
+          simp only [hap, ne_eq, not_true_eq_false, if_false] at hex ⊢
+          cases hh : exec M n fns w f room o e1 handler with
+          | none => simp [hh] at hex
+          | some rh =>
+            obtain ⟨e2, t2, r2⟩ := rh
+            simp only [hh, Option.bind_some] at hex
+            by_cases hn2 : r2 = .norm
+            · subst hn2
+              rw [ih _ _ _ _ _ _ _ _ hle hh (by decide)]
+              simp only [if_true, Option.bind_some] at hex ⊢
+              cases hk : exec M n fns w f room o e2 k with
+              | none => simp [hk] at hex
+              | some rk =>
+                obtain ⟨e3, t3, r3⟩ := rk
+                simp only [hk, Option.bind_some, Option.pure_def, Option.some.injEq, Prod.mk.injEq] at hex
+                obtain ⟨rfl, rfl, rfl⟩ := hex
+                rw [ih _ _ _ _ _ _ _ _ hle hk hno]; rfl
+            · simp only [hn2, if_false, Option.pure_def, Option.some.injEq, Prod.mk.injEq] at hex
+              obtain ⟨rfl, rfl, rfl⟩ := hex
+              rw [ih _ _ _ _ _ _ _ _ hle hh hno]
+              simp [hn2]
+        · simp only [hd, if_false] at hex
+          by_cases hn : r1 = .norm
+          · subst hn
+            rw [ih _ _ _ _ _ _ _ _ hle hb (by decide)]
+            simp only [if_true, Option.bind_eq_bind, Option.bind_some] at hex ⊢
+            cases hk : exec M n fns w f room o e1 k with
+            | none => simp [hk] at hex
+            | some rk =>
+              obtain ⟨e3, t3, r3⟩ := rk
+              simp only [hk, Option.bind_some, Option.pure_def, Option.some.injEq, Prod.mk.injEq] at hex
+              obtain ⟨rfl, rfl, rfl⟩ := hex
+              simp only [reduceCtorEq, if_false]
+              rw [ih _ _ _ _ _ _ _ _ hle hk hno]; rfl
+          · simp only [hn, if_false, Option.pure_def, Option.some.injEq, Prod.mk.injEq] at hex
+            obtain ⟨rfl, rfl, rfl⟩ := hex
+            rw [ih _ _ _ _ _ _ _ _ hle hb hno]
+            simp [hn, hd]
     | callS g args k =>
       simp only [exec] at hex ⊢
       cases hc : callWith M n fns w (exec M n fns w f) room o env g args with
@@ -1586,6 +1803,48 @@ theorem exec_noEsc (M n : Nat) (fns : List FDecl) (w : Nat) : ∀ (fuel : Nat) (
         · subst hd
           simp only [if_true] at hex
           cases hh : exec M n fns w f room o env handler with
+          | none => simp [hh] at hex
+          | some rh =>
+            obtain ⟨e2, t2, r2⟩ := rh
+            simp only [hh, Option.bind_some] at hex
+            by_cases hn2 : r2 = .norm
+            · subst hn2
+              simp only [if_true] at hex
+              cases hk : exec M n fns w f room o e2 k with
+              | none => simp [hk] at hex
+              | some rk =>
+                obtain ⟨e3, t3, r3⟩ := rk
+                simp only [hk, Option.bind_some, Option.pure_def, Option.some.injEq, Prod.mk.injEq] at hex
+                rw [← hex.2.2]; exact ih k _ _ _ _ _ _ hy.2 hk
+            · simp only [hn2, if_false, Option.pure_def, Option.some.injEq, Prod.mk.injEq] at hex
+              rw [← hex.2.2]; exact ih handler _ _ _ _ _ _ hy.1.2 hh
+        · simp only [hd, if_false] at hex
+          by_cases hn : r1 = .norm
+          · subst hn
+            simp only [if_true] at hex
+            cases hk : exec M n fns w f room o e1 k with
+            | none => simp [hk] at hex
+            | some rk =>
+              obtain ⟨e3, t3, r3⟩ := rk
+              simp only [hk, Option.bind_some, Option.pure_def, Option.some.injEq, Prod.mk.injEq] at hex
+              rw [← hex.2.2]; exact ih k _ _ _ _ _ _ hy.2 hk
+          · simp only [hn, if_false, Option.pure_def, Option.some.injEq, Prod.mk.injEq] at hex
+            rw [← hex.2.2]; exact ih body _ _ _ _ _ _ hy.1.1 hb
+    | tryStop body handler k =>
+      simp only [escFree, Bool.and_eq_true] at hy
+      simp only [exec] at hex
+      cases hb : exec M n fns w f room (o + w) (upd env "%ap" (5 * w)) body with
+      | none => simp [hb] at hex
+      | some rb =>
+        obtain ⟨e1, t1, r1⟩ := rb
+        simp only [hb, Option.bind_eq_bind, Option.bind_some] at hex
+        by_cases hd : r1 = .defeat
+        · subst hd
+          simp only [if_true] at hex
+          by_cases hap : e1 "%ap" = 5 * w
+          case neg => simp [hap] at hex
+          simp only [hap, ne_eq, not_true_eq_false, if_false] at hex
+          cases hh : exec M n fns w f room o e1 handler with
           | none => simp [hh] at hex
           | some rh =>
             obtain ⟨e2, t2, r2⟩ := rh
